@@ -183,6 +183,7 @@ def _single_callable_cases(rng, n, gen, scenario, style, tag, calls_per):
                               'c': {'env': C.env_for(P, 'full', S['src']), 'fn': desc, 'truth': truth,
                                     'args': ([["inst", K.IDX[K.U]]] if implicit else []) + pos, 'kw': kw, 'body': mbody},
                               'x': {'access': list(acc), 'kind': S['kind'], 'flavour': 'sync', 'pos': pos, 'kwv': kw, 'body': body, 'ctxmode': 'full',
+                                    'fresh_result': bool(S.get('fresh_result')),
                                     'src': S['src'], 'twin': S['twin'], 'implicit': implicit, 'needle': None, 'history': [],
                                     'scenario': scenario, '_impl': impl}})
         finally:
@@ -243,6 +244,8 @@ def run_impl(cases):
     out = [None] * len(cases)
     plain = [i for i, c in enumerate(cases) if not c['x'].get('nested_in')]
     for i, r in zip(plain, C.run_impl_calls([cases[i] for i in plain])):
+        if cases[i]['x'].get('fresh_result') and r.get('out') == 'RET:other' and r.get('twin', {}).get('out') == 'RET:other':
+            r = dict(r, out='RET', twin=dict(r['twin'], out='RET'))      # as at generation time: both calls hand back a fresh equal object
         out[i] = r
     for n, c in enumerate(cases):
         x = c['x']
